@@ -335,6 +335,7 @@ def main():
         changed.append("PyTables")
     if write_if_changed(os.path.join(OUT, "Tables.lean"), version_tables()):
         changed.append("Tables")
+    changed += ["SerialApi"] if __import__("gen_spec").main() else []  # frozen reference spec (C03)
     print("gen_tables: changed=" + (",".join(changed) or "none"))
 
 
